@@ -45,6 +45,19 @@ def refactorings():
             d[p0[0]] = "THR_" + p0[0]
         return pm.rename_symbols(m, d)
 
+    def rename_swap(m):
+        # new names overlap old names: the first two etas swap, two thetas rotate (a simultaneous substitution)
+        etas = list(m.random_variables.etas.names)
+        d = {}
+        if len(etas) >= 2:
+            d[etas[0]], d[etas[1]] = etas[1], etas[0]
+        th = [p.name for p in m.parameters if p.name not in m.random_variables.parameter_names]
+        if len(th) >= 2:
+            d[th[0]], d[th[1]] = th[1], th[0]
+        if not d:
+            raise ValueError("nothing to swap")
+        return pm.rename_symbols(m, d)
+
     def generic_and_back(m):
         g = pm.convert_model(m, "generic")
         return pm.convert_model(g, "nonmem")
@@ -67,6 +80,7 @@ def refactorings():
         "cleanup": pm.cleanup_model,
         "greekify": pm.greekify_model,
         "rename_fresh": rename_fresh,
+        "rename_swap": rename_swap,
         "generic_and_back": generic_and_back,
         "to_generic": lambda m: pm.convert_model(m, "generic"),
         "remove_unused": pm.remove_unused_parameters_and_rvs,
@@ -345,10 +359,10 @@ def _translate_envs(old, new, envs, combo):
     newr = list(new.random_variables.names)
     for label, env in envs:
         e = dict(env)
-        if ("rename_fresh" in combo or "greekify" in combo) and len(oldp) == len(newp):
+        if ("rename_fresh" in combo or "greekify" in combo or "rename_swap" in combo) and len(oldp) == len(newp):
             for a, b in zip(oldp, newp):
                 e[b] = env[a]
-        if "greekify" in combo and len(oldr) == len(newr):
+        if ("greekify" in combo or "rename_swap" in combo) and len(oldr) == len(newr):
             for a, b in zip(oldr, newr):
                 e[b] = env[a]
         for p in new.parameters:
